@@ -56,7 +56,7 @@ pub fn check_structure(spec: &CfmSpec) -> Check {
                 ensure_eq!(z.end_range, *end, "cfm:zone-end-range", "segment {} azimuth {} zone {}", si, ai, zi);
                 if *op <= 2 {
                     let want = [OpCode::BypassFilter, OpCode::BypassMapInControl, OpCode::ForceFilter][*op as usize];
-                    ensure_eq!(no_panic("RangeZone::op_code", || z.op_code())?, want, "cfm:op-code-meaning", "code {}", op);
+                    crate::ensure_same!(no_panic("RangeZone::op_code", || z.op_code())?, want, "cfm:op-code-meaning", "code {}", op);
                 }
             }
         }
